@@ -282,7 +282,7 @@ def run_harness(exe, lines, shard=256, max_bad=24):
     lock = threading.Lock()
 
     def work(sh):
-        p = vf.run_lines(exe, sh, timeout=120)
+        p = vf.run_lines(exe, sh, timeout=20)
         o = p.stdout.split('\n')
         if o and o[-1] == '':
             o.pop()
@@ -293,7 +293,7 @@ def run_harness(exe, lines, shard=256, max_bad=24):
             if bad[0] >= max_bad:
                 res.append('SKIP')
                 continue
-            q = vf.run_lines(exe, [l], timeout=10)
+            q = vf.run_lines(exe, [l], timeout=5)
             t = q.stdout.strip()
             if q.returncode == 0 and t:
                 res.append(t)
@@ -401,7 +401,9 @@ def run(ctx):
     corpus = load_corpus()
     ctx.cov['corpus_cases'] = len(corpus)
     cases = corpus + gen_cases(ctx, n)
+    ctx.log('%d cases generated (+%d corpus)' % (len(cases) - len(corpus), len(corpus)))
     fails, stats = evaluate(ctx, exes, oracle, cases)
+    ctx.log('evaluated: %d failing (case, rules, build)' % len(primary(fails)))
     ctx.cov['genpos_rejected_by_coq_predicate'] = stats.get('gp_rejected', 0)
     ctx.cov['cases_with_nonconstant_piece_rejected'] = stats.get('inconsistent', 0)
     ctx.cov['cases_accepted'] = len(stats.get('accepted', []))
@@ -435,6 +437,7 @@ def run(ctx):
                 f = shrink(ctx, exes, oracle, f)
             except vf.Infra:
                 pass
+            ctx.log('shrunk %s' % key)
         ctx.violation(key, f['what'] + ('  [%d failing (case, rules) with this key]' % len(fs)), replay=f['replay'])
     ctx.cov['rule'] = ('closed subject/clip sets from gen/polys.py (8 families) plus multiply-wound sets, with 1-3 open polylines of 2-8 vertices from 10 '
                        'families (random walks, chords through everything, inside->outside, nearly horizontal zigzags, exactly axis-parallel, vertices on '
